@@ -135,10 +135,12 @@ func newModel() *model { return &model{lidKnown: [2]bool{true, true}} }
 
 func (m *model) regime() string {
 	switch {
+	case m.hw >= typeMax:
+		// checked first: once the column has reached the type maximum the (separate) saturation
+		// defect governs, whatever ALTER did before
+		return "at-type-max"
 	case m.alterBelowMax:
 		return "after-alter-below-max"
-	case m.hw >= typeMax:
-		return "at-type-max"
 	}
 	return "normal"
 }
